@@ -841,6 +841,9 @@ def check_split_case(ck, T, case, res, res_pure, model):
     viol = []
     if "buffer" not in res:
         T.check("split-impl-ran", False, lambda: f"{cid}: {res.get('exn')}: {res.get('msg')} {res.get('tb', '')[-300:]}")
+        if res.get("exn") == "ProcessCrash":
+            ck.violation(f"C09 split [{cid}]: the interpreter died while building / splitting these valid batches: {res.get('msg')}",
+                         {"kind": "split", "case": case, "observed": res}, signature=f"split:crash:{cid}")
         return False
     rf = res.get("ref", {})
     T.check("split-reference-decodes", "batches" in rf, lambda: f"{cid}: reference splitter/decoder: {rf.get('exn')}: {rf.get('msg')}")
@@ -851,9 +854,7 @@ def check_split_case(ck, T, case, res, res_pure, model):
         m = model.get(("SP", f"{cid}/{d}"), {"error": "no model result"})
         T.check(f"split-model-{d}-vs-reference", m.get("batches") == want_shape and m.get("trailing") == rf["trailing"],
                 lambda d=d, m=m: f"{cid}: model split({d}) {short(m)} reference {want_shape} trailing {rf['trailing']}")
-    runs = [("py", res["py"], "python splitter"), ("cy", res["cy"], "compiled splitter")]
-    if res_pure is not None and "py" in res_pure:
-        runs.append(("py", res_pure["py"], "python splitter + python batch classes (AIOKAFKA_NO_EXTENSIONS=1)"))
+    runs = [("py", res["py"], "python splitter + python batch classes"), ("cy", res["cy"], "compiled splitter")]
     for d, out, label in runs:
         got = [[b.get("kind"), b.get("recs")] for b in out["batches"]]
         want = [[b["kind"], b["recs"]] for b in rf["batches"]]
@@ -977,6 +978,36 @@ def coq_sample(ck, T, v2_cases, v2_res, legacy_cases, legacy_res, split_res, mod
     return n
 
 
+def run_impl_safe(payload, env):
+    """run_impl, but when the interpreter dies (a memory error in the compiled extension kills the
+    whole process) re-run the shard case by case so that the input that kills it is identified"""
+    try:
+        return run_impl("c09_impl.py", payload, timeout=1500, env=env)
+    except RuntimeError as e:
+        first = str(e)[:300]
+    out = {"v2": [], "legacy": [], "split": [], "where": None, "codecs": None}
+    for kind in ("v2", "legacy", "split"):
+        for case in payload.get(kind, []):
+            try:
+                o = run_impl("c09_impl.py", {kind: [case]}, timeout=600, env=env)
+                out[kind].append(o[kind][0])
+                out["where"], out["codecs"] = o["where"], o["codecs"]
+            except RuntimeError as e:
+                crash = {"exn": "ProcessCrash", "msg": str(e)[-300:]}
+                out[kind].append(crash if kind == "split" else {"py": dict(crash), "cy": dict(crash)})
+    for kind in ("varint", "crc"):
+        if kind in payload:
+            try:
+                o = run_impl("c09_impl.py", {kind: payload[kind]}, timeout=600, env=env)
+                out.update({k: v for k, v in o.items() if k in ("varint", "crc", "crc_table")})
+                out["where"], out["codecs"] = o["where"], o["codecs"]
+            except RuntimeError as e:
+                out["crash_" + kind] = str(e)[-300:]
+    if out["where"] is None:
+        raise RuntimeError("implementation process cannot run at all: " + first)
+    return out
+
+
 def pipeline(ck, v2_cases, legacy_cases, split_cases, varints, decs, crcs, do_coq_sample=True):
     T = Tally()
     # ---- models: .vo up to date, extraction, runner
@@ -993,9 +1024,10 @@ def pipeline(ck, v2_cases, legacy_cases, split_cases, varints, decs, crcs, do_co
     tmp = ck._c09_ext.result() if getattr(ck, "_c09_ext", None) else build_extension(ck)
     tick(ck, "extension-build(wait)")
     try:
-        env = {"PYTHONPATH": tmp}
-        for case in legacy_cases:
-            pass
+        # AIOKAFKA_NO_EXTENSIONS=1: the _...Py classes then use the pure-Python varint / CRC helpers too
+        # (otherwise record/util.py hands them the compiled helpers); the compiled classes are imported
+        # explicitly from aiokafka.record._crecords by the script and are not affected by the variable
+        env = {"PYTHONPATH": tmp, "AIOKAFKA_NO_EXTENSIONS": "1"}
         payload = {"v2": v2_cases, "legacy": legacy_cases, "split": split_cases,
                    "varint": {"values": varints, "decs": decs}, "crc": crcs}
         # shard the impl run over processes
@@ -1007,11 +1039,9 @@ def pipeline(ck, v2_cases, legacy_cases, split_cases, varints, decs, crcs, do_co
                 p["varint"] = payload["varint"]
                 p["crc"] = crcs
             shards.append(p)
-        with cf.ThreadPoolExecutor(max_workers=nsh + 1) as ex:
-            fpure = ex.submit(run_impl, "c09_impl.py", {"split": split_cases}, 1500,
-                              {"PYTHONPATH": tmp, "AIOKAFKA_NO_EXTENSIONS": "1"}) if split_cases else None
-            outs = list(ex.map(lambda p: run_impl("c09_impl.py", p, timeout=1500, env=env), shards))
-            pure = fpure.result() if fpure else {"split": []}
+        with cf.ThreadPoolExecutor(max_workers=nsh) as ex:
+            outs = list(ex.map(lambda p: run_impl_safe(p, env), shards))
+        pure = {"split": []}
     finally:
         shutil.rmtree(tmp, ignore_errors=True)
     tick(ck, "implementation-runs")
@@ -1020,6 +1050,8 @@ def pipeline(ck, v2_cases, legacy_cases, split_cases, varints, decs, crcs, do_co
     ck.extra["codecs"] = outs[0]["codecs"]
     in_tmp = where["aiokafka"].startswith(tmp) and where["ext"].startswith(tmp)
     ck.obligation("correspondence:extension-compiled-from-current-pyx", in_tmp, "" if in_tmp else f"imported from {where}")
+    py_pure = where.get("python_side_varint") == "encode_varint_py" and "_DefaultRecordBatchPy" in where.get("python_side_batch", "")
+    ck.obligation("correspondence:python-side-is-pure-python", py_pure, "" if py_pure else f"{where}")
     v2_res, legacy_res, split_res = {}, {}, {}
     for i, o in enumerate(outs):
         for c, r in zip(v2_cases[i::nsh], o.get("v2", [])):
@@ -1126,10 +1158,10 @@ def run(ck: Check, only=None):
         pass
     corpus = load_corpus()
     if only is None:
-        v2_cases = corpus["v2"] + [gen_v2_case(rng, i, ck.thorough, codecs_available) for i in range(ck.n(400, 9000))]
-        legacy_cases = corpus["legacy"] + [gen_legacy_case(rng, i, ck.thorough, codecs_available) for i in range(ck.n(200, 4000))]
-        split_cases = corpus["split"] + [gen_split_case(rng, i, codecs_available) for i in range(ck.n(150, 3000))]
-        varints, decs = gen_varints(rng, ck.n(450, 6000))
+        v2_cases = corpus["v2"] + [gen_v2_case(rng, i, ck.thorough, codecs_available) for i in range(ck.n(400, 5000))]
+        legacy_cases = corpus["legacy"] + [gen_legacy_case(rng, i, ck.thorough, codecs_available) for i in range(ck.n(200, 2500))]
+        split_cases = corpus["split"] + [gen_split_case(rng, i, codecs_available) for i in range(ck.n(150, 2000))]
+        varints, decs = gen_varints(rng, ck.n(450, 5000))
         crcs = gen_crc(rng, ck.n(40, 300))
     else:
         v2_cases, legacy_cases, split_cases = only.get("v2", []), only.get("legacy", []), only.get("split", [])
